@@ -47,6 +47,71 @@ func init() {
 	check.Register("selection", scnSelection)
 	check.Register("hostile", scnHostile)
 	check.Register("config", scnConfig)
+	check.Register("genesis", scnGenesisRoundTrip)
+	check.Register("timeouts", scnTimeouts)
+	check.Register("sponsored-nopay", scnSponsoredNoPay)
+	monitorFactories["C12"] = func() []world.Monitor { return []world.Monitor{NewC12(), NewC05()} }
+	c12life := lifeJobs("C12", 2, 16, map[string]string{"bigtimeout": "1"})
+	check.RegisterSpec(&check.Spec{Prop: "C12", Level: "fault_enumeration",
+		Rule: "silence patterns are enumerated: for an order of r replicas and up to 3 attempts, every assigned provider independently completes or stays silent at each attempt (2^(3r) patterns, one order per pattern), with 0 / 1 / several replacement providers in the population, timeout/duration ratios {small, exactly 1/2, above 1/2, equal}, and orders handed out by Store and by Ready; lifecycle walks with timeouts >= duration/2 ride along. The monitor checks at every block boundary that an unfinished order has a future examination scheduled, that it is resolved (fully stored / cancelled / reduced with refund) within its lifetime and, without any replacement provider, right after ten intervals, and that an examination of a fully stored order changes nothing and schedules nothing. A case is a (replica, replacements, ratio, path, pattern bits) tuple or a resolution class (kind, examinations it took); distinct_nontrivial counts distinct cases.",
+		Jobs: func(tier string, seed int64) []check.Job {
+			jobs := c12life(tier, seed)
+			add := func(a map[string]string) {
+				jobs = append(jobs, check.Job{Prop: "C12", Scenario: "timeouts", Seed: seed*2750159 + int64(len(jobs)), Args: a})
+			}
+			for _, td := range []string{"small", "half", "over", "full"} {
+				for _, extra := range []string{"0", "1", "3"} {
+					add(map[string]string{"replica": "1", "attempts": "3", "extra": extra, "td": td})
+				}
+			}
+			for _, extra := range []string{"0", "1", "4"} {
+				add(map[string]string{"replica": "2", "attempts": "3", "extra": extra, "td": "small"})
+			}
+			add(map[string]string{"replica": "2", "attempts": "2", "extra": "1", "td": "small", "ready": "1"})
+			add(map[string]string{"replica": "1", "attempts": "3", "extra": "0", "td": "over", "ready": "1"})
+			if tier == "thorough" {
+				for _, td := range []string{"half", "over"} {
+					for _, extra := range []string{"0", "2"} {
+						add(map[string]string{"replica": "2", "attempts": "3", "extra": extra, "td": td})
+					}
+				}
+				for _, extra := range []string{"0", "1", "5"} {
+					add(map[string]string{"replica": "3", "attempts": "3", "extra": extra, "td": "small", "maxpat": "512"})
+					add(map[string]string{"replica": "3", "attempts": "2", "extra": extra, "td": "small", "ready": "1"})
+				}
+			}
+			return jobs
+		},
+		MinCases: map[string]int{"quick": 60, "thorough": 200},
+		Assumptions: []string{"liveness is decided as bounded progress within the bound the statement itself gives (lifetime of the order; ten intervals when no replacement exists)"}})
+	check.RegisterSpec(&check.Spec{Prop: "C18", Level: "exploration",
+		Rule: "a lifecycle walk (with block rewards, debts, renewals, migrations, in-flight orders, pending schedules, fault reports and recoveries by a fishman) runs to a seeded point; the application state is exported, validated with ModuleBasics.ValidateGenesis and fed to InitChain of a fresh application; every raw key/value pair of the six custom stores and every module-account balance is compared; then both chains receive the identical continuation (same blocks and signed transactions, recorded from the original) and are compared again. A case is the bucketed shape of the exported state (orders, shards, models, pending timeouts/expiries, debts, fault rows, fishing rewards, in-flight orders); distinct_nontrivial counts distinct shapes.",
+		Jobs: func(tier string, seed int64) []check.Job {
+			n := 5
+			args := map[string]string{"ops": "30", "cont": "20"}
+			if tier == "thorough" {
+				n = 64
+				args = map[string]string{"ops": "70", "cont": "40", "drain": "1"}
+			}
+			var jobs []check.Job
+			for i := 0; i < n; i++ {
+				a := map[string]string{"profile": []string{"mixed", "renewheavy", "timeouts", "migrate", "rewards"}[i%5]}
+				for k, v := range args {
+					a[k] = v
+				}
+				if i%5 == 4 {
+					a["ops"] = "12"
+				}
+				if i == 0 {
+					a["recipe"] = "1"
+					a["ops"] = "8"
+				}
+				jobs = append(jobs, check.Job{Prop: "C18", Scenario: "genesis", Seed: seed*67867967 + int64(i), Args: a})
+			}
+			return jobs
+		},
+		MinCases: map[string]int{"quick": 3, "thorough": 10},
+		Assumptions: []string{"stores are compared by raw key/value iteration of the six custom store keys; SDK module state (bank, staking, auth) is compared only through module-account balances and the continuation's effects"}})
 	monitorFactories["C19"] = func() []world.Monitor { return []world.Monitor{&C19{}} }
 	monitorFactories["C20"] = func() []world.Monitor { return []world.Monitor{&C20{}} }
 	simpleJobs := func(prop, scn string, qn, tn int, qargs, targs map[string]string) func(string, int64) []check.Job {
